@@ -19,7 +19,7 @@ class Workload:
 
 
 def build(rng, casedir, index, tier, stable=None, size=None, nrec=None, tags="safe", offsets="any",
-          mode=None, name_space=None, long_lines=False, long_nodes=None):
+          mode=None, name_space=None, long_lines=False, long_nodes=None, unmapped=False):
     w = Workload()
     if long_nodes is None:  # now and then segments of hundreds of kilobases (lengths only, no sequences in the file)
         long_nodes = rng.random() < 0.03
@@ -51,10 +51,22 @@ def build(rng, casedir, index, tier, stable=None, size=None, nrec=None, tags="sa
         # stable paths written by other tools need not consist of whole segments: an interval may
         # end (or begin) anywhere inside a segment
         lines = [partial_intervals(l, rng) if rng.random() < 0.25 else l for l in lines]
+    w.unmapped = 0
+    um = set()
+    if unmapped and not w.stable and len(lines) >= 11:
+        # reads without an alignment, written as records whose path column is '*' (anywhere after the
+        # lines the format detection looks at): they traverse no node
+        for k in range(rng.randint(1, 3)):
+            pos = rng.randint(10, len(lines))
+            qlen = rng.randint(1, 500)
+            lines.insert(pos, rng.choice([f"um{index}_{k}\t{qlen}\t0\t0\t*\t*\t0\t0\t0\t0\t0\t0",
+                                          f"um{index}_{k}\t{qlen}\t0\t{qlen}\t+\t*\t0\t0\t0\t0\t0\t255\ttp:A:P"]))
+            um = {u + 1 if u >= pos else u for u in um} | {pos}
+        w.unmapped = len(um)
     w.lines, w.text_kind = ggaf.text_variant(lines, rng)
     lines = w.lines
     w.walks = walks
-    w.nodesets = [rgaf.traversed_nodes(g, w.coords, l) for l in lines]
+    w.nodesets = [set() if i in um else rgaf.traversed_nodes(g, w.coords, l) for i, l in enumerate(lines)]
     w.mode = mode or rng.choice(["plain", "plain", "bgzf", "pysam"])
     w.layout = rng.choice(["standard", "tiny", "tiny", "line_start"])
     w.gaf = os.path.join(casedir, vary_name(rng, "a.gaf") + ("" if w.mode == "plain" else ".gz"))
